@@ -601,6 +601,9 @@ class BaseMatcher:
             self.expand_now = 0
 
         nb_start_nodes = self._create_start_nodes(use_edges=self.only_edges)
+        if nb_start_nodes > 0 and not any(not m.stop for m in self.lattice[0].values(0)):
+            # Only stopped matchings (these are only kept in the lattice when debugging)
+            nb_start_nodes = 0
         if nb_start_nodes == 0:
             self.lattice_best = []
             return [], 0
